@@ -151,7 +151,7 @@ def term(draw, families=FAMILIES):
 @st.composite
 def task_spec(draw, encodings=ENCODINGS, minmax=("min", "max"), families=FAMILIES, max_dim=8,
               classes=BOUND_CLASSES, seeded=True, styles=("direct", "direct", "transform"),
-              allow_multi_objective_max=True, mutating=0.1, array_rows=0.0, returns=0.15):
+              allow_multi_objective_max=True, mutating=0.1, array_rows=0.0, returns=0.15, weighted=0.15):
     enc = draw(st.sampled_from(encodings))
     vs = draw(variables(enc, max_dim=max_dim, classes=classes))
     mm = draw(st.sampled_from(minmax))
@@ -165,6 +165,11 @@ def task_spec(draw, encodings=ENCODINGS, minmax=("min", "max"), families=FAMILIE
         spec["weights"] = [draw(st.sampled_from([0.0, 0.3, 0.5, 1.0, 2.0])) for _ in range(k)]
     else:
         style = draw(st.sampled_from(styles))
+        n_terms = 1
+        if weighted > 0 and draw(_f(0.0, 1.0)) < weighted:
+            # several weighted objectives over any kind of variables (not only a MultiObjectiveVariable)
+            n_terms = draw(st.integers(2, 3))
+            spec["weights"] = [draw(st.sampled_from([0.0, 0.3, 0.5, 1.0, 2.0])) for _ in range(n_terms)]
         if len(vs) >= 2 and draw(st.integers(0, 5)) == 0:
             # variables whose names were left at the library default ("var") or that share one name: accepted by
             # Task (names only key transform_solution, so these tasks read the position directly)
@@ -175,13 +180,15 @@ def task_spec(draw, encodings=ENCODINGS, minmax=("min", "max"), families=FAMILIE
                 else:
                     v["name"] = "v"
             style = "direct"
-        spec["objective"] = {"terms": [draw(term(families))], "salt": salt, "style": style}
-    if seeded:
+        spec["objective"] = {"terms": [draw(term(families)) for _ in range(n_terms)], "salt": salt, "style": style}
+    if seeded == "mostly" and draw(st.integers(0, 3)) == 0:
+        pass                      # an unseeded task (for checks whose oracle does not need a reproducible run)
+    elif seeded:
         spec["seed"] = draw(st.one_of(st.sampled_from([0, 1, 42, 2 ** 31 - 1, 2 ** 32 - 1]),
                                       st.integers(0, 2 ** 32 - 1)))
     if mutating > 0 and draw(_f(0.0, 1.0)) < mutating:
         spec["objective"]["mutates_argument"] = True
-    if returns > 0 and enc != "multi_objective" and draw(_f(0.0, 1.0)) < returns:
+    if returns > 0 and spec["weights"] is None and draw(_f(0.0, 1.0)) < returns:
         # the type of the returned number: an objective that counts (violated constraints, hops of a path) returns a
         # Python int or a numpy int64; one written with numpy returns a float64 scalar
         spec["objective"]["returns"] = draw(st.sampled_from(["int", "int64", "float64"]))
@@ -246,7 +253,7 @@ def config_spec(draw, optimizer, max_cycles=(1, 8), pop_mults=(1, 1, 1.5, 2, 3),
 
 
 @st.composite
-def run_spec(draw, optimizer, task=None, config=None, modes=("serial",), max_workers=16, warmup=0.0):
+def run_spec(draw, optimizer, task=None, config=None, modes=("serial",), max_workers=16, warmup=0.0, debug=0.04):
     t = draw(task if task is not None else task_spec())
     c = draw(config if config is not None else config_spec(optimizer))
     mode = draw(st.sampled_from(modes))
@@ -256,8 +263,11 @@ def run_spec(draw, optimizer, task=None, config=None, modes=("serial",), max_wor
         spec["mode"] = mode
     if mode != "serial":
         spec["workers"] = draw(st.one_of(st.none(), st.integers(1, max_workers)))
-    if draw(st.integers(0, 24)) == 0:
+    if draw(_f(0.0, 1.0)) < debug:
         spec["debug"] = True             # the constructor's debug switch (verbose printing) must not change anything
+    if draw(st.integers(0, 7)) == 0:
+        # the configuration reaches the instance through set_config_parameters instead of the constructor
+        spec["configure"] = draw(st.sampled_from(["set", "reset"]))
     if warmup > 0 and draw(_f(0.0, 1.0)) < warmup:
         # an earlier optimize() call on the same instance, on a task of another shape / direction / scale
         spec["warmup"] = draw(task_spec(max_dim=5, encodings=("cont_multi", "cont_multi", "mixed", "discrete",
